@@ -4,7 +4,8 @@ diff=$1; shift
 cd /repo || exit 9
 git apply --check "$diff" || { echo "patch does not apply"; exit 9; }
 git apply "$diff"
-trap 'git -C /repo checkout -- . ' EXIT
+# evidence written while a seeded change is applied must never be kept: restore the committed files afterwards
+trap 'git -C /repo checkout -- . ; git -C /verif checkout -- evidence 2>/dev/null' EXIT
 for p in "$@"; do
   out=$(cd /verif && ./check $p --tier quick 2>&1); rc=$?
   echo "== $p rc=$rc"; echo "$out" | grep -E "^C[0-9]+:|VIOLATION|UNDECIDED|CHECKER" | head -6
